@@ -156,7 +156,7 @@ func runC10(c *Ctx) {
 	partPats := []string{"bin<!=>(load(iaddr(" + mt + ", 0)), " + elem + ")", "bin<!=>(" + elem + ", load(iaddr(" + mt + ", 0)))", "bin<!=>(len(load(iaddr(" + mt + ", 0))), len(" + elem + "))", "bin<!=>(len(" + elem + "), len(load(iaddr(" + mt + ", 0))))"}
 	// the numeric parse of capture group 1, written out or behind a parse helper (looked through by the matcher)
 	parseVal := "alt(conv<uint32>(ext#0(call<strconv.ParseUint>(load(iaddr(" + mt + ", 1)), _, _))), ext#0(call<*>(load(iaddr(" + mt + ", 1)))))"
-	parseErr := "alt(ext#1(call<strconv.ParseUint>(load(iaddr(" + mt + ", 1)), _, _)), ext#1(call<*>(load(iaddr(" + mt + ", 1)))))"
+	parseErr := "alt(ext#1(call<strconv.ParseUint>(load(iaddr(" + mt + ", 1)), _, _)), ext#1(call<*>(load(iaddr(" + mt + ", 1)))), ext#1(call<*>(load(iaddr(" + mt + ", 1)), _)))" // (a helper handed the digits, or the digits and the marker verdict: C10.base.helper-error)
 	rejectPats := append(append(append([]string{}, noMatchPats...), partPats...), "bin<!=>("+parseErr+", nil)")
 
 	// ---- exits of ParsePath
@@ -234,6 +234,8 @@ func runC10(c *Ctx) {
 		via *ana.Edge // one case of a merged return: the selecting edge
 	}
 	var sites []vsite
+	valRoutines := map[*ssa.Function]bool{}
+	outerGates := map[*ssa.Function]ssa.CallInstruction{}
 	for _, ci := range ana.CallsTo(fn, "builtin.append") {
 		t := b.CallTermAt(ci)
 		elemT, _ := ana.Find("store(iaddr(self, 0), $v)", t.Arg(1))
@@ -252,6 +254,30 @@ func runC10(c *Ctx) {
 				sites = append(sites, vsite{key, ke.Instr.Block(), key.b.Of(ke.Results[0], ke.Instr), ke.Instr, ke.Via})
 			}
 			continue
+		}
+		// the value finished by a (value, error) helper of its own — it parses the digits and applies the marker it is handed:
+		// its successful exits are the sites, analysed with its parameters bound to the arguments
+		if hc := stripObj(v); hc.Op == "ext" && hc.Idx == 0 && len(hc.Args) == 1 && stripObj(hc.Args[0]).Op == "call" {
+			call := stripObj(hc.Args[0])
+			if h := calleeOf(call); h != nil && h.Blocks != nil && ana.InRepo(h) && len(ana.BackEdges(h)) == 0 && len(call.Args) == len(h.Params) && h.Signature.Results().Len() == 2 && len(h.Blocks) > 2 {
+				hb := c.boundBuilder(call)
+				gk := plainEdges(edgesMatching(b, "raw:bin<==>(ext#1("+termPat(call)+"), nil)"))
+				var hs []vsite
+				for _, he := range ana.Exits(h) {
+					if he.Panic || len(he.Results) != 2 || !hb.Of(he.Results[1], he.Instr).Is("nil") {
+						continue
+					}
+					hs = append(hs, vsite{site{h, hb}, he.Instr.Block(), hb.Of(he.Results[0], he.Instr), he.Instr, he.Via})
+				}
+				if len(gk) > 0 && len(hs) > 0 {
+					r.Fn(ana.ShortFunc(h))
+					r.Check(mustPass(fn, ci.Block(), gk), "C10.exits.gate-parse-error", c.ipos(ci), "append only after the value routine returned no error")
+					sites = append(sites, hs...)
+					valRoutines[h] = true
+					outerGates[h] = ci
+					continue
+				}
+			}
 		}
 		sites = append(sites, vsite{site{fn, b}, ci.Block(), v, ci, nil})
 	}
@@ -293,8 +319,20 @@ func runC10(c *Ctx) {
 		g1 := plainEdges(edgesMatching(sb, matchedPats...))
 		g2 := plainEdges(edgesMatching(sb, wholePats...))
 		g3 := plainEdges(edgesMatching(sb, "bin<==>("+parseErr+", nil)"))
-		r.Check(mustPass(sfn, blk, g1), "C10.exits.gate-matched", pos, "component value only after a match was found (a digit group matched)")
-		r.Check(anchored && mustPass(sfn, blk, g1) || mustPass(sfn, blk, g2), "C10.regexp.whole-component", pos, "component value only after matches[0]==component, or with a pattern anchored at both ends (the whole component matches)")
+		// (for a site inside the value routine the match gates are passed on the way to its call in the key routine)
+		pass := func(inner []ana.Edge, pats []string) bool {
+			if mustPass(sfn, blk, inner) {
+				return true
+			}
+			if o := outerGates[sfn]; o != nil {
+				og := plainEdges(edgesMatching(b, pats...))
+				return len(og) > 0 && !ana.ReachableAvoiding(fn, og)[o.Block()]
+			}
+			return false
+		}
+		okMatched, okWhole := pass(g1, matchedPats), pass(g2, wholePats)
+		r.Check(okMatched, "C10.exits.gate-matched", pos, "component value only after a match was found (a digit group matched)")
+		r.Check(anchored && okMatched || okWhole, "C10.regexp.whole-component", pos, "component value only after matches[0]==component, or with a pattern anchored at both ends (the whole component matches)")
 		r.Check(mustPass(sfn, blk, g3), "C10.exits.gate-parse-error", pos, "component value only after the numeric parse returned no error")
 		// hardened variant selected iff group 2 non-empty
 		if phi, isPhi := v.V.(*ssa.Phi); isPhi {
@@ -335,6 +373,9 @@ func runC10(c *Ctx) {
 						}
 						et := rb.Of(e.Results[1], e.Instr)
 						vt := rb.Of(e.Results[0], e.Instr)
+						if et.Is("nil") && valRoutines[rf] {
+							continue // its value is decided above, exit by exit (C10.exits.hardened-iff-marker)
+						}
 						if et.Is("nil") {
 							// (a value below 2^31 is unchanged by & 0x7fffffff)
 							_, ok := ana.MatchAny(vt, "conv<uint32>(ext#0(call<"+name+">(p0, _, _)))", "conv<uint32>(bin<&>(ext#0(call<"+name+">(p0, _, _)), 2147483647))", "bin<&>(conv<uint32>(ext#0(call<"+name+">(p0, _, _))), 2147483647)")
